@@ -20,6 +20,7 @@ func init() {
 			"(R08.3) coverage floors for the SSA value kinds handled by recordArgReflected, relatedParam, checkFunction and checkMethodSignature (a removed case is a violation, an added one is not); " +
 			"(R08.4) the fix-point is free of pruning state: which calls checkFunction examines depends only on the accumulated result sets, never on 'already checked' maps, and the name pairs are emitted in sorted order; " +
 			"(R08.5) the injection chain agrees: the text abiNamePatch replaces occurs exactly once in the pinned toolchain's internal/abi/type.go, the two linknamed functions have the same names on both sides, and the name table is looked up under the right spelling of its variable. " +
+			"(R07.2, shared with C07) the facts of a dependency whose cache entry is missing are recomputed whenever the dependency can reach reflect at all (transitively), merged and stored. " +
 			"Does not decide the soundness of the taint heuristic over all data flows, nor the injected replacer's algorithm.",
 		perConfig: checkC08,
 		once:      checkC08goroot,
@@ -62,6 +63,7 @@ func boolToInt(b bool) int {
 
 func checkC08(c *Ctx) {
 	w := c.W
+	ruleDepCacheRecompute(c)
 	c.Rule("R08.1", "the reflected-type walker visits every component reflect.Type can navigate to", 7)
 	walker := w.Fn("(*reflectInspector).recursivelyRecordUsedForReflectImpl")
 	if walker == nil {
@@ -84,7 +86,10 @@ func checkC08(c *Ctx) {
 				elemAll = true
 			}
 		}
-		type comp struct{ key, what, reflectAPI string; ok bool }
+		type comp struct {
+			key, what, reflectAPI string
+			ok                    bool
+		}
 		comps := []comp{
 			{"Pointer.Elem", "element type of a pointer", "Type.Elem", elemAll || got["(*go/types.Pointer).Elem"]},
 			{"Slice.Elem", "element type of a slice", "Type.Elem", elemAll || got["(*go/types.Slice).Elem"]},
@@ -153,9 +158,9 @@ func checkC08(c *Ctx) {
 	// R08.3 ---------------------------------------------------------------
 	c.Rule("R08.3", "coverage floors of the reflection analysis' SSA switches", 25)
 	floors := map[string][]string{
-		"(*reflectInspector).recordArgReflected": {"*ssa.IndexAddr", "*ssa.Slice", "*ssa.MakeInterface", "*ssa.UnOp", "*ssa.FieldAddr", "*ssa.Alloc", "*ssa.ChangeType", "*ssa.MakeSlice", "*ssa.MakeMap", "*ssa.MakeChan", "*ssa.Const", "*ssa.Global", "*ssa.Parameter"},
-		"relatedParam":                            {"*ssa.Parameter", "*ssa.UnOp", "*ssa.FieldAddr", "*ssa.Store"},
-		"(*reflectInspector).checkFunction":       {"*ssa.Store", "*ssa.ChangeType", "*ssa.Call"},
+		"(*reflectInspector).recordArgReflected":   {"*ssa.IndexAddr", "*ssa.Slice", "*ssa.MakeInterface", "*ssa.UnOp", "*ssa.FieldAddr", "*ssa.Alloc", "*ssa.ChangeType", "*ssa.MakeSlice", "*ssa.MakeMap", "*ssa.MakeChan", "*ssa.Const", "*ssa.Global", "*ssa.Parameter"},
+		"relatedParam":                             {"*ssa.Parameter", "*ssa.UnOp", "*ssa.FieldAddr", "*ssa.Store"},
+		"(*reflectInspector).checkFunction":        {"*ssa.Store", "*ssa.ChangeType", "*ssa.Call"},
 		"(*reflectInspector).checkMethodSignature": {"*types.Struct", "*types.Array", "*types.Slice"},
 		"(*reflectInspector).ignoreReflectedTypes": {"*ssa.Type", "*ssa.Function"},
 	}
